@@ -378,7 +378,11 @@ JANET_CORE_FN(cfun_table_tostruct,
     JanetTable *t = janet_gettable(argv, 0);
     JanetStruct proto = janet_optstruct(argv, argc, 1, NULL);
     JanetStruct st = janet_table_to_struct(t);
-    janet_struct_proto(st) = proto;
+    if (proto != NULL) {
+        janet_struct_proto(st) = proto;
+        /* Keep the cached hash consistent with janet_struct_end, which includes the prototype */
+        janet_struct_hash(st) += 2654435761u * janet_struct_hash(proto);
+    }
     return janet_wrap_struct(st);
 }
 
